@@ -1,5 +1,6 @@
 import Zc.Proofs.QueryGen
 import Zc.GenFacts.FnHistory
+import Zc.GenFacts.FnHistoryRun
 import Zc.GenFacts.FnDns
 /-! # C13 — queries carry known answers and are not needlessly repeated
 
@@ -262,8 +263,13 @@ theorem spacedFrom_spacedAfter {gap lo : Int} : ∀ {l : List (Int × Bool)}, Sp
 /-- **Lookup spacing (partial: D13).**  Once the loop has made its first QM request (`first = false`,
 `delay = 999` — after the second request in general, after the first when QM is forced), every further request is
 QM and at least 1019 ms ≥ 1 s after the previous one, whatever wakes the loop up (own timer or arriving records),
-provided every jitter draw is ≥ 20 ms.  Missing for the full clause: the gap between the second and the third
-request (the signature of finding D13). -/
+provided every jitter draw is ≥ 20 ms.  Missing for the full clause: the **whole** gap between the second and the third *generated*
+request — the theorem is silent about every third request, which is generated 200 ms + jitter after the second whenever the lookup is not
+forced to QM (`C13_lookup_spacing_refuted`).  Finding D13 is the part of that region that reaches the wire: a third request that is **not a
+duplicate** of the second.  A duplicate third request is generated just as early but is silent: each question the second request
+transmitted is dropped from the third unless its known-answer list shrank — `C13_lookup_repeat_suppressed` (`Props/C13Run.lean`), per
+question; the composition of `Loop.asks` with `requestQuery` over whole requests is not proved, the oracle separates the two cases on the
+decoded datagrams. -/
 theorem C13_lookup_spacing_partial (forced : Option Bool) (es : List (Int × Nat)) (l : Loop)
     (hf : l.first = false) (hd : l.delay = 999) (hdr : ∀ e ∈ es, 20 ≤ e.2) :
     C13.SpacedAfter 1000 0 (Loop.asks forced l es) ∧ (∀ a ∈ Loop.asks forced l es, a.2 = false) ∧
@@ -351,8 +357,12 @@ example : Loop.asks none (Loop.init 0 3000) [(0, 20), (220, 20), (440, 20), (145
 **What this transports**: the suppression clause (the iff of `suppresses`) and the exactness facts below are stated of the
 generated functions themselves, and `C13_history_is_source` says the model's history is the translated one along every sequence of
 `add_question_at_time`/`async_expire`/`clear`; a change in a method body that changes what it computes breaks a named lemma of
-`FnHistory` at stage P.  **What it does not**: the callers (`askType`/`addQuestion` of the browser, the query handler's use of
-`suppresses`) are hand-written models; the theorems about them are not re-proved over the generated functions. -/
+`FnHistory` at stage P.  **Callers** (`GenFacts/FnHistoryRun.lean`): `askTypeG`, `serviceQueryG`, `serviceQuestionsG`, `addQuestionG`, `requestQueryG` are the
+query generators with the *generated* `QuestionHistory` and the translated `suppresses` / `add_question_at_time`; under `Sim` they emit
+what the model's emit and leave corresponding histories (`C13_generators_are_source`), hence `C13_ask_suppress_iff_source` here and
+`C13_service_query_source`, `C13_request_query_source` in `Props/C13Run.lean`.  **What it does not**: the generators themselves (the loop
+over the types, the four lookup questions, the known-answer selection) and the query handler's use of `suppresses` remain hand-written
+models around the translated history. -/
 section Tie
 open Zc.Py Zc.GenFn.History Zc.GenFacts.FnHistory
 
@@ -406,6 +416,48 @@ example :
     let s := QuestionHistory.add_question_at_time id QuestionHistory.init q 1000 [r]
     s.suppresses id q 1999 [r] = true ∧ s.suppresses id q 2000 [r] = false ∧ s.suppresses id q 1999 [] = false := by
   decide
+
+open Zc.GenFacts.FnHistoryRun in
+/-- **C13_suppress_iff, for the query generator over the translated history.**  `askTypeG` is `askType` (the body of the type loop of
+`generate_service_query`) with the generated `QuestionHistory` and the translated `suppresses` / `add_question_at_time`: on any
+`_history` dict, a browser question is omitted iff it is QM and the dict holds the question with a time at most 999 ms back and a
+known-answer set of which every record is among the known answers we would send -/
+theorem C13_ask_suppress_iff_source (cache : List Rec) (s : QuestionHistory) (hwf : WFH lower s) (now : Int) (qu : Bool) (ty : String) :
+    (askTypeG lower cache s now qu ty).1 = none ↔
+      qu = false ∧ ∃ t prev, PyDict.get? (Question.beq lower) s.history { name := ty, type := 12, class_ := 1, unique := qu } = some (t, prev)
+        ∧ now - t ≤ 999 ∧ ∀ r ∈ prev, ∃ k ∈ knownAnswers lower cache ty 12 1 now, r.beq lower k = true := by
+  have hs := sim_absH lower s hwf
+  rw [(askTypeG_sim lower hs cache now qu ty).1, C13_suppress_iff, get?_eq_get]
+  constructor
+  · rintro ⟨hq, e, he, h1, h2⟩
+    exact ⟨hq, e.time, e.known, by rw [he]; rfl, h1, h2⟩
+  · rintro ⟨hq, t, prev, he, h1, h2⟩
+    cases hg : History.get lower (absH s) { name := ty, type := 12, class_ := 1, unique := qu } with
+    | none => rw [hg] at he; cases he
+    | some e =>
+      rw [hg] at he
+      simp only [Option.map_some, Option.some.injEq, Prod.mk.injEq] at he
+      exact ⟨hq, e, rfl, by rw [he.1]; exact h1, by rw [he.2]; exact h2⟩
+
+open Zc.GenFacts.FnHistoryRun in
+/-- **The query generator over the translated history emits what the model emits and leaves the model's history**, for the browser
+loop, the collected browser questions, one lookup question and the four lookup questions — under `Sim` (the generated dict holds the
+model's entries; `C13_history_is_source`: true along every sequence of history calls from the empty history) -/
+theorem C13_generators_are_source {s : QuestionHistory} {h : History} (hs : Sim lower s h) (cache : List Rec) (now : Int) (qu : Bool) :
+    (∀ ty, (askTypeG lower cache s now qu ty).1 = (askType lower cache h now qu ty).1
+        ∧ Sim lower (askTypeG lower cache s now qu ty).2 (askType lower cache h now qu ty).2)
+    ∧ (∀ tys, (serviceQuestionsG lower cache now qu tys s).1 = (serviceQuestions lower cache now qu tys h).1
+        ∧ (serviceQueryG lower cache now qu tys s).1 = (serviceQuery lower cache now qu tys h).1
+        ∧ Sim lower (serviceQuestionsG lower cache now qu tys s).2 (serviceQuestions lower cache now qu tys h).2)
+    ∧ (∀ name type cls skip, (addQuestionG lower cache s now qu name type cls skip).1 = (addQuestion lower cache h now qu name type cls skip).1
+        ∧ Sim lower (addQuestionG lower cache s now qu name type cls skip).2 (addQuestion lower cache h now qu name type cls skip).2)
+    ∧ (∀ name server, (requestQueryG lower cache s now qu name server).1 = (requestQuery lower cache h now qu name server).1
+        ∧ Sim lower (requestQueryG lower cache s now qu name server).2 (requestQuery lower cache h now qu name server).2) :=
+  ⟨fun ty => askTypeG_sim lower hs cache now qu ty,
+   fun tys => ⟨(serviceQuestionsG_sim lower cache now qu tys hs).1, (serviceQueryG_sim lower cache now qu tys hs).1,
+     (serviceQuestionsG_sim lower cache now qu tys hs).2⟩,
+   fun name type cls skip => addQuestionG_sim lower hs cache now qu name type cls skip,
+   fun name server => requestQueryG_sim lower hs cache now qu name server⟩
 
 end Tie
 
